@@ -2,6 +2,7 @@
    Statements only; proofs are in Proofs/CliContract.v and Proofs/AnalyzerProofs.v. *)
 From Coq Require Import List NArith Bool Permutation.
 From Verif Require Import Base.Res Model.Cli Model.Analyzer Proofs.CliContract Proofs.AnalyzerProofs Base.Text Model.Scope Proofs.ScopeProofs Gen.GenRules Model.Rules Proofs.RulesProofs.
+From Verif Require Model.Lexer Proofs.PreprocessExact.
 From Verif Require Model.DeclRules Proofs.DeclRulesProofs Model.ExprKind Proofs.ExprKindProofs Model.DataDecl Proofs.DataDeclProofs.
 Import ListNotations.
 
@@ -100,3 +101,21 @@ Proof. exact DataDeclProofs.duplicate_declaration_diagnosed. Qed.
 Theorem C03_faulty_type_declaration_not_masked : forall (g : DeclRules.tyfact -> list DeclRules.ldiag) fs f,
   In f fs -> g f <> [] -> flat_map g fs <> [].
 Proof. exact DeclRulesProofs.rule_not_masked. Qed.
+
+(* before the tokenizer: the preprocessor blanks the text between the end of the FIRST start marker of a vendor's description
+   block and the FIRST end marker, and nothing else -- whatever stands before the block, after it, or between two such blocks
+   reaches the tokenizer as written; what replaces the description is blanks and line feeds *)
+Theorem C03_only_the_first_description_is_blanked : forall t s e,
+  find_sub Lexer.oscat_open t = Some s -> find_sub Lexer.oscat_close t = Some e -> (s < e)%nat ->
+  exists m,
+    t = firstn (s + List.length Lexer.oscat_open) t ++ m ++ skipn e t /\
+    Lexer.preprocess t = firstn (s + List.length Lexer.oscat_open) t ++ flat_map Lexer.blank_char m ++ skipn e t /\
+    prefix_eq Lexer.oscat_open (skipn s t) = true /\ (forall i, (i < s)%nat -> prefix_eq Lexer.oscat_open (skipn i t) = false) /\
+    prefix_eq Lexer.oscat_close (skipn e t) = true /\ (forall i, (i < e)%nat -> prefix_eq Lexer.oscat_close (skipn i t) = false).
+Proof. exact PreprocessExact.preprocess_first_block. Qed.
+
+Theorem C03_preprocessor_changes_nothing_else : forall t,
+  find_sub Lexer.oscat_open t = None \/ find_sub Lexer.oscat_close t = None \/
+  (exists s e, find_sub Lexer.oscat_open t = Some s /\ find_sub Lexer.oscat_close t = Some e /\ (e <= s)%nat) ->
+  Lexer.preprocess t = t.
+Proof. exact PreprocessExact.preprocess_identity. Qed.
